@@ -117,8 +117,18 @@ Definition alignValueSingle (i : info) (newWidth : Z) : res info :=
   if is_nil newSpace0 && isCanonicalInitial p newWidth then Ok i
   else
     let newSpace := if is_nil newSpace0 then [SP] else newSpace0 in
-    if str_eqb newSpace oldSpace then Ok i
-    else do_replace i (spaceBeforeValueIndex p) oldSpace newSpace (fixedSBC i) (set_sbv p newSpace).
+    (* a line that fits into 72 columns is not pushed beyond them: it keeps its tabs
+       or gets a single space *)
+    let widthWith (space : str) := twa0 (twa0 (spaceBeforeValueColumn p) space) (val p) in
+    let blocked :=
+      negb (str_eqb newSpace [SP]) &&
+      (widthWith (if is_nil oldSpace then [SP] else oldSpace) <=? 72) &&
+      (72 <? widthWith newSpace) in
+    if blocked && (negb (is_nil oldSpace) && all_tabs oldSpace) then Ok i
+    else
+      let newSpace := if blocked then [SP] else newSpace in
+      if str_eqb newSpace oldSpace then Ok i
+      else do_replace i (spaceBeforeValueIndex p) oldSpace newSpace (fixedSBC i) (set_sbv p newSpace).
 
 (* func (info *varalignLine) alignValue(width int) *)
 Definition alignValue (i : info) (width : Z) : res info :=
